@@ -20,14 +20,18 @@ instance : NeZero r := ⟨by decide⟩
 abbrev Fq := Fin q
 abbrev Fr := Fin r
 
-/-- Square-and-multiply power (recursion on `e / 2`). -/
-def npow {M : Type} [Mul M] [One M] (x : M) : Nat → M
-  | 0 => 1
-  | e+1 =>
-    let h := npow x ((e+1)/2)
+/-- Square-and-multiply power, structurally recursive on a fuel argument (so that closed instances can be
+evaluated by the kernel): `fuel` halvings of the exponent. -/
+def npowAux {M : Type} [Mul M] [One M] : Nat → M → Nat → M
+  | 0, _, _ => 1
+  | f+1, x, e =>
+    if e = 0 then 1 else
+    let h := npowAux f x (e / 2)
     let s := h * h
-    if (e+1) % 2 = 1 then s * x else s
-decreasing_by omega
+    if e % 2 = 1 then s * x else s
+
+/-- `x ^ e` by square-and-multiply (`Nat.log2 e + 1` halvings reach 0). -/
+def npow {M : Type} [Mul M] [One M] (x : M) (e : Nat) : M := npowAux (Nat.log2 e + 1) x e
 
 /-- Field inverse in a prime field of order `n`, by Fermat: `x^(n-2)`; maps 0 to 0. -/
 def finInv {n : Nat} [NeZero n] (x : Fin n) : Fin n := npow x (n - 2)
